@@ -111,6 +111,8 @@ class Scheduler:
             self.pct_points = {self.rng.randrange(1, pct_horizon) for _ in range(pct_depth)}
         self._pct_low = 0.0
         self.idle_hooks = []  # callables returning True if external work is still pending (used by settle)
+        self.p_stall = 0.0  # fault: a task is descheduled for 1-100 virtual ms at a scheduling point (slow / stalled thread)
+        self.stalls = 0
 
     # ------------------------------------------------------------------ bookkeeping
     def reseed(self, *key):
@@ -252,6 +254,10 @@ class Scheduler:
         cur = self.current
         self.log(kind, label)
         if cur.nopreempt or len(self.tasks) < 2:
+            return
+        if self.p_stall and self.rng.random() < self.p_stall:
+            self.stalls += 1
+            self.block(object(), self.rng.choice((0.001, 0.004, 0.02, 0.1)), 'stall')
             return
         if self.strategy == 'pct':
             if self.steps in self.pct_points:
